@@ -782,6 +782,18 @@ pub fn hook_generate_integer_value(name: &str, associated_type: &ASN1Type, integ
     tld.comments = String::new();
     crate::generator::rasn::Rasn::default().generate_integer_value(tld).map(|t| t.to_string()).map_err(|e| format!("{e:?}"))
 }
+/// accessor for the native replay of generate_tld (unit GEN_dispatch): a module holding one INTEGER value assignment, generated through generate_module
+#[cfg(not(kani))]
+pub fn hook_generate_value_tld(name: &str, v: i128) -> Result<String, String> {
+    use crate::generator::Backend;
+    use std::{cell::RefCell, rc::Rc};
+    let h = Rc::new(RefCell::new(ModuleHeader { name: "M".into(), module_identifier: None, encoding_reference_default: None, tagging_environment: crate::intermediate::TaggingEnvironment::Automatic,
+        extensibility_environment: ExtensibilityEnvironment::Explicit, imports: vec![], exports: None }));
+    let mut tld = ToplevelValueDefinition::from((name, ASN1Value::LinkedIntValue { integer_type: crate::intermediate::IntegerType::Uint8, value: v }, ASN1Type::Integer(crate::intermediate::types::Integer { constraints: vec![], distinguished_values: None })));
+    tld.module_header = Some(h);
+    let mut backend = crate::generator::rasn::Rasn::default();
+    match backend.generate_module(vec![ToplevelDefinition::Value(tld)]) { Ok(m) if m.warnings.is_empty() => Ok(m.generated.unwrap_or_default()), Ok(m) => Err(format!("warnings: {:?}", m.warnings.iter().map(|w| w.to_string()).collect::<Vec<_>>())), Err(e) => Err(format!("{e:?}")) }
+}
 /// accessor for the native replay of unit GEN_values: Rasn::value_to_tokens, token text as proc_macro2 prints it
 #[cfg(not(kani))]
 pub fn hook_value_to_tokens(v: &crate::intermediate::ASN1Value, type_name: Option<&str>) -> Result<String, String> {
